@@ -376,10 +376,72 @@ def check_graph(g, res=None):
             r = call(visit, c2.root(), 'root')
             if isinstance(r, Exc):
                 bad('iso', 'load:%s' % r.name, dict(error=repr(r)))
+            # while the class of a node is missing, an object that refers to
+            # that node can still be changed and stored, and the graph is
+            # intact when the class is back
+            holders = sorted({sname for sname, dname, p in g.edges
+                              if g.kinds.get(dname) == 'BR'
+                              and (sname == 'root' or sname in stored_names)
+                              and g.kinds.get(sname, 'PM') != 'BR'
+                              and sname not in g.xdb and p != 'weak'})
+            if holders and not viol:
+                hname = holders[0]
+                holder = c2.root() if hname == 'root' else \
+                    c2.get(nodes[hname]._p_oid)
+                holder._p_activate()
+                holder._p_changed = True
+                env.CLOCK.now += 1
+                r = call(tm2.commit)
+                if isinstance(r, Exc):
+                    tm2.abort()
+                    bad('missing', 'holder-of-missing-class-not-storable:%s'
+                        % r.name, dict(holder=hname, error=repr(r)[:200]))
+                else:
+                    br_class()
+                    tm3 = transaction.TransactionManager()
+                    c3 = db.open(tm3)
+                    try:
+                        seen.clear()
+                        r = call(visit, c3.root(), 'root')
+                        if isinstance(r, Exc):
+                            bad('missing', 'after-resave:%s' % r.name,
+                                dict(error=repr(r)[:200]))
+                    finally:
+                        tm3.abort()
+                        c3.close()
+                    hide_br()
         finally:
             tm2.abort()
             c2.close()
             br_class()
+        # a weak reference into a database that is not configured in a
+        # later session reads as "gone", never as some local object
+        weak_x = [(sname, dname) for sname, dname, p in g.edges
+                  if p == 'weak' and dname in g.xdb and sname not in g.xdb]
+        if weak_x and not viol and not has_blob and not forced:
+            tm.abort()
+            c.close()
+            db.close()
+            st2 = FS(os.path.join(d, 'Data.fs'))
+            db2 = DBm(st2)
+            tm4 = transaction.TransactionManager()
+            c4 = db2.open(tm4)
+            try:
+                for sname, dname in weak_x:
+                    src = c4.root() if sname == 'root' else \
+                        c4.get(nodes[sname]._p_oid)
+                    v = call(lambda: items_of(src)['e_' + dname])
+                    t = call(lambda: unwrap(v)[1]) \
+                        if not isinstance(v, Exc) else v
+                    if t is not None:
+                        bad('weakxdb', 'target-without-its-database:%s' % (
+                            t.name if isinstance(t, Exc)
+                            else type(t).__name__),
+                            dict(src=sname, dst=dname, got=repr(t)[:120]))
+            finally:
+                tm4.abort()
+                c4.close()
+                db2.close()
     except Exception as e:      # noqa: B902
         import traceback
         bad('error', 'oracle:%s' % type(e).__name__,
